@@ -163,12 +163,160 @@ def nontrivial(case, res):
     return len(case['callers']) >= 2 and res.get('switches', 0) >= 1
 
 
+class _Wake:
+    """Observation of the "wait for room" protocol (events for `drv wakeup`, see lean/MpsVerif/Drv/Wakeup.lean): a
+    logging dict in place of the server's ledger dict and instance-level wrappers around `wait` / `notify` of the
+    server's own condition object.  Internal attribute names (`_uid_to_futures`, `_pipeline_notfull`): if they are
+    gone the observation is skipped (`skipped`), never crashed."""
+
+    def __init__(self):
+        self.ev = []
+        self.on = False
+        self.state = {}      # who -> 'woken' | 'expired'
+        self.skipped = None
+        self.n_at_stop = None
+        self.at_rest = False
+
+    @staticmethod
+    def who():
+        try:
+            import asyncio
+            t = asyncio.current_task()
+        except RuntimeError:
+            t = None
+        if t is not None:
+            return ('task', id(t))
+        me = detsched.SCHED.me()
+        return ('thr', me.tid if me is not None else -1)
+
+    def ledger(self, srv):
+        wk = self
+
+        class LogDict(dict):
+            def __setitem__(self, k, v):
+                dict.__setitem__(self, k, v)
+                if wk.on:
+                    st = wk.state.pop(wk.who(), None)
+                    wk.ev.append(('wtake' if st == 'woken' else 'take', len(self)))
+
+            def pop(self, k, *d):
+                had = k in self
+                r = dict.pop(self, k, *d)
+                if wk.on and had:
+                    wk.ev.append(('pop', len(self)))
+                return r
+
+        if not isinstance(getattr(srv, '_uid_to_futures', None), dict) or srv._uid_to_futures:
+            self.skipped = 'no (empty) ledger dict `_uid_to_futures` before the server is entered'
+            return
+        srv._uid_to_futures = LogDict()
+
+    def _live(self, cond):
+        ws = getattr(cond, '_waiters', None)
+        if ws is None:
+            return 0
+        return sum(1 for f in ws if not (hasattr(f, 'done') and f.done()))
+
+    def condition(self, srv, is_async):
+        cond = getattr(srv, '_pipeline_notfull', None)
+        if cond is None or self.skipped:
+            self.skipped = self.skipped or 'no condition object `_pipeline_notfull` on the entered server'
+            return
+        wk = self
+        orig_wait, orig_notify = cond.wait, cond.notify
+
+        def enter():
+            st = wk.state.pop(wk.who(), None)
+            wk.ev.append(('wpark',) if st == 'woken' else ('park',))
+
+        if is_async:
+            import asyncio
+
+            async def wait():
+                if not wk.on:
+                    return await orig_wait()
+                enter()
+                me = wk.who()
+                try:
+                    r = await orig_wait()
+                except asyncio.CancelledError:
+                    if wk.on:
+                        wk.state[me] = 'expired'
+                        wk.ev.append(('leave',))
+                    raise
+                if wk.on:
+                    wk.state[me] = 'woken'
+                return r
+        else:
+            def wait(timeout=None):
+                if not wk.on:
+                    return orig_wait(timeout)
+                enter()
+                me = wk.who()
+                r = orig_wait(timeout)
+                if wk.on:
+                    if r:
+                        wk.state[me] = 'woken'
+                    else:
+                        wk.state[me] = 'expired'
+                        wk.ev.append(('leave',))
+                return r
+
+        def notify(n=1):
+            if not wk.on:
+                return orig_notify(n)
+            import sys as _sys
+            by_caller = _sys._getframe(1).f_code.co_name == '_enqueue'
+            before = wk._live(cond)
+            r = orig_notify(n)
+            k = before - wk._live(cond)
+            if not by_caller:
+                wk.ev.append(('notify', k))
+            else:
+                st = wk.state.pop(wk.who(), None)
+                if st == 'woken':
+                    wk.ev.append(('wleave',))
+                wk.ev.append(('passon' if st else 'bounce', k))
+            return r
+
+        cond.wait = wait
+        cond.notify = notify
+        self.on = True
+
+    def stop(self, srv):
+        """called right before the server is left for the first time"""
+        if self.on:
+            self.on = False
+            self.n_at_stop = len(srv._uid_to_futures)
+            # a caller that left its wait (or was woken and had no time left) and raised without notify()
+            for who, st in (list(self.state.items()) if self.at_rest else []):
+                if st == 'woken':
+                    # woken, then neither took a slot nor waited again nor passed on.  (A caller woken by the
+                    # `notify_all` of a server that is being left is not meant: observation stops before.)
+                    self.ev.append(('wleave',))
+                self.ev.append(('giveup',))
+            self.state.clear()
+
+
+def wakeup_lines(cid, case, res):
+    """Lines for `drv wakeup`."""
+    wkd = res.get('wakeup')
+    if not wkd or wkd.get('skipped') or wkd.get('n_at_stop') is None:
+        return []
+    lines = [f'case {cid} cap={case["cap"]}']
+    for e in wkd['events']:
+        lines.append('e ' + ' '.join(str(x) for x in e))
+    lines.append(f'end n={wkd["n_at_stop"]}' + ('' if wkd.get('at_rest') else ' partial=1'))
+    return lines
+
+
 def run_case(case):
     has_leave = case['kind'] == 'sync' and any(sp['kind'] == 'stream' and sp.get('stop_mode') == 'leave' and sp['stop_after'] is not None
                                                for sp in case['callers'])
     exit_busy = bool(case.get('exit_busy')) and not has_leave
     ev = []
     log = ev.append
+    wake = _Wake()
     cap = case['cap']
     st = {'max_backlog': 0, 'calls': {}}
     outcomes = {}
@@ -197,6 +345,7 @@ def run_case(case):
 
         async def amain():
             srv = AsyncServer(ThreadServlet(W, num_threads=case['nworkers']), capacity=cap)
+            wake.ledger(srv)
             loop = asyncio.get_running_loop()
 
             def sample(s):
@@ -208,6 +357,7 @@ def run_case(case):
                     log(('blen', b))
 
             await srv.__aenter__()
+            wake.condition(srv, True)
             detsched.SCHED.on_step.append(sample)
 
             async def do_call(r, dur, fail, timeout, bp):
@@ -304,6 +454,7 @@ def run_case(case):
 
             await asyncio.gather(*[caller(spec) for spec in case['callers']])
             if exit_busy:
+                wake.stop(srv)
                 try:
                     await srv.__aexit__(None, None, None)
                     await srv.__aenter__()
@@ -320,6 +471,9 @@ def run_case(case):
             box['idle_backlog'] = srv.backlog
             box['gather_alive2'] = _alive(srv)
             detsched.SCHED.on_step.remove(sample)
+            if wake.on:
+                wake.at_rest = True
+            wake.stop(srv)
             try:
                 await srv.__aexit__(None, None, None)
             except BaseException as e:  # noqa
@@ -336,6 +490,7 @@ def run_case(case):
             return amain_wrapper()
         base_threads = {ts.tid for ts in detsched.SCHED.order if not ts.done}
         srv = Server(ThreadServlet(W, num_threads=case['nworkers']), capacity=cap)
+        wake.ledger(srv)
         box = {}
 
         def sample(s):
@@ -347,6 +502,7 @@ def run_case(case):
                 log(('blen', b))
 
         srv.__enter__()
+        wake.condition(srv, False)
         if True:
             detsched.SCHED.on_step.append(sample)
 
@@ -426,6 +582,7 @@ def run_case(case):
             for t in ts:
                 t.join()
             if exit_busy:
+                wake.stop(srv)
                 try:
                     srv.__exit__(None, None, None)
                     srv.__enter__()
@@ -449,6 +606,9 @@ def run_case(case):
                 box['idle_backlog'] = srv.backlog
                 box['gather_alive2'] = _alive(srv)
             detsched.SCHED.on_step.remove(sample)
+        if wake.on and not has_leave:
+            wake.at_rest = True
+        wake.stop(srv)
         try:
             srv.__exit__(None, None, None)
         except detsched.Abort:
@@ -484,7 +644,8 @@ def run_case(case):
     chooser = detsched.make_chooser(tuple(case['chooser']), case['seed'])
     v, e, s = detsched.run(main, chooser, max_steps=case.get('max_steps', 200000))
     res = dict(events=ev, steps=s.steps, switches=s.switches, early=s.early_fires, monitors=[],
-               max_backlog=st['max_backlog'])
+               max_backlog=st['max_backlog'],
+               wakeup=dict(events=wake.ev, skipped=wake.skipped, n_at_stop=wake.n_at_stop, at_rest=wake.at_rest and e is None))
     mon = res['monitors']
     if st['max_backlog'] > cap:
         mon.append(dict(prop='C06', rule='overshoot', detail=f'backlog {st["max_backlog"]} > capacity {cap}'))
